@@ -47,10 +47,26 @@ Definition obs_ok (s : sstate FA) (app : list (peer * float)) (o : sobs) : nat :
 
 (* ---- monitors on the observed numbers only ---- *)
 Definition fle (a b : float) : bool := PrimFloat.leb a b.
-Definition mon_obs (P : sparams FA) (op : sop FA) (o : sobs) : nat :=
+(* the sticky mesh-failure penalty at a disconnect, restated on observed numbers: a retained entry's penalty counter
+   grows by the squared delivery deficit exactly when the peer was in the mesh with the delivery requirement active
+   and unmet, and is untouched otherwise *)
+Definition sticky_ok (P : sparams FA) (prev : option pobs) (now_ : pobs) : bool :=
+  match prev with
+  | None => true
+  | Some pp =>
+      forallb (fun te =>
+        match aget (fst te) (ob_topics pp), aget (fst te) (spTopics FA P) with
+        | Some tb, Some tp =>
+            let due := ob_inmesh tb && ob_active tb && PrimFloat.ltb (ob_mmd tb) (tpMMDThreshold FA tp) in
+            let d := PrimFloat.sub (tpMMDThreshold FA tp) (ob_mmd tb) in
+            feq (ob_mfp (snd te)) (if due then PrimFloat.add (ob_mfp tb) (PrimFloat.mul d d) else ob_mfp tb)
+        | _, _ => true
+        end) (ob_topics now_)
+  end.
+
+Definition mon_obs (P : sparams FA) (op : sop FA) (prev : sobs) (o : sobs) : nat :=
   (* counters never negative, never above their caps; no NaN anywhere *)
-  if existsb (fun e => PrimFloat.is_nan (ob_score (snd e))) (so_peers o) then 101
-  else if existsb (fun e => negb (fle PrimFloat.zero (ob_bp (snd e)))
+  if existsb (fun e => negb (fle PrimFloat.zero (ob_bp (snd e)))
                   || existsb (fun te =>
                         let t := snd te in
                         negb (fle PrimFloat.zero (ob_fmd t) && fle PrimFloat.zero (ob_mmd t) && fle PrimFloat.zero (ob_imd t) && fle PrimFloat.zero (ob_mfp t))
@@ -63,33 +79,50 @@ Definition mon_obs (P : sparams FA) (op : sop FA) (o : sobs) : nat :=
                                  | Some po => negb (ob_connected po) && PrimFloat.ltb PrimFloat.zero (ob_score po)
                                  | None => false end
           | _ => false end then 103
+  else if match op with
+          | SRemovePeer _ p _ => match aget p (so_peers o) with
+                                 | Some po => negb (ob_connected po) && negb (sticky_ok P (aget p (so_peers prev)) po)
+                                 | None => false end
+          | _ => false end then 106
+  (* no NaN anywhere (the class of a recorded finding: last, so that it hides no other clause of the same step) *)
+  else if existsb (fun e => PrimFloat.is_nan (ob_score (snd e))) (so_peers o) then 101
   else 0.
 
 (* after a model/implementation disagreement: keep looking for a concrete failing history with the monitor alone *)
-Fixpoint smon_only (P : sparams FA) (l : list sstepr) (idx : nat) : option (nat * nat) :=
+(* the parameters the observation of a step is judged against are those in force AFTER it (a SetTopicScoreParams that
+   lowers a cap must have re-capped the counters): [prm_after], a function of the operation alone
+   (Proofs/ScoreParams.v [prm_after_step]) *)
+Fixpoint smon_only (P : sparams FA) (prev : sobs) (l : list sstepr) (idx : nat) : option (nat * nat) :=
   match l with
   | [] => None
-  | st :: l' => match mon_obs P (ss_op st) (ss_obs st) with O => smon_only P l' (S idx) | c => Some (idx, c) end
+  | st :: l' => let P' := prm_after FA P (ss_op st) in
+                match mon_obs P' (ss_op st) prev (ss_obs st) with
+                | O | 101%nat => smon_only P' (ss_obs st) l' (S idx)
+                | c => Some (idx, c) end
   end.
 
-Fixpoint sexec (s : sstate FA) (l : list sstepr) (idx : nat) : verdict :=
+(* 101 (a NaN score) is the class of a recorded finding: it is remembered and the replay goes on *)
+Fixpoint sexec (s : sstate FA) (prev : sobs) (l : list sstepr) (idx : nat) (fnd : option nat) : verdict :=
   match l with
-  | [] => VOk
+  | [] => match fnd with Some i => VMonFail i 101 | None => VOk end
   | st :: l' =>
-      match mon_obs (prm FA s) (ss_op st) (ss_obs st) with
-      | O =>
+      let P' := prm_after FA (prm FA s) (ss_op st) in
+      let c0 := mon_obs P' (ss_op st) prev (ss_obs st) in
+      let fnd' := match fnd, c0 with Some i, _ => Some i | None, 101%nat => Some idx | None, _ => None end in
+      match c0 with
+      | O | 101%nat =>
           match sstep FA s (ss_op st) with
-          | None => match smon_only (prm FA s) l' (S idx) with Some (i, c) => VMonFail i c | None => VMismatch idx 2 end
+          | None => match smon_only P' (ss_obs st) l' (S idx) with Some (i, c) => VMonFail i c | None => VMismatch idx 2 end
           | Some s' => match obs_ok s' (ss_app st) (ss_obs st) with
-                       | O => sexec s' l' (S idx)
-                       | c => match smon_only (prm FA s) l' (S idx) with Some (i, c') => VMonFail i c' | None => VMismatch idx c end
+                       | O => sexec s' (ss_obs st) l' (S idx) fnd'
+                       | c => match smon_only P' (ss_obs st) l' (S idx) with Some (i, c') => VMonFail i c' | None => VMismatch idx c end
                        end
           end
       | c => VMonFail idx c
       end
   end.
 
-Definition check_scase (c : scase) : verdict := sexec (sinit FA (sc_params c)) (sc_steps c) 0.
+Definition check_scase (c : scase) : verdict := sexec (sinit FA (sc_params c)) {| so_peers := []; so_nrecs := 0 |} (sc_steps c) 0 None.
 
 (* constructors specialised to the float instance, for the generated cases files *)
 Definition mkTP (tw timw : float) (q : Z) (timc fw fd fc mw md mc mt : float) (win act : Z) (pw pd iw id : float) : tparams FA :=
